@@ -160,6 +160,15 @@ func libCover(name string, opts []cat.Opts, cb bool, q, t, faults int) coverPlan
 		}}
 }
 
+// pathsCover: tiny random catalogs explored WITHOUT a view: the tree of all histories, every one
+// of them replayed (path-sensitive defects: graph positions, leftovers of a rollback).
+func pathsCover(opts []cat.Opts, q, t, faults int) coverPlan {
+	return coverPlan{name: "all-paths", bounds: Bounds{MaxInv: 2, MaxFaults: faults, FaultKinds: errKinds, NoView: true},
+		cats: func(seed int64, tier string) []*cat.Catalog {
+			return fam.RandomFamily(seed+29, scale(tier, q, t), withOpts(fam.Presets["tiny"], opts))
+		}}
+}
+
 // libGroupsCover: big value groups over declared functions, registrations in a fixed random order.
 func libGroupsCover(opts []cat.Opts, cb bool, q, t, faults int) coverPlan {
 	return coverPlan{name: "libgroups", bounds: Bounds{MaxInv: 1, MaxFaults: faults, FaultKinds: errKinds},
@@ -311,6 +320,7 @@ func init() {
 			repo: true,
 			covers: []coverPlan{
 				structCover("reenter", fam.Reenter, deferBoth, false, 12, 200, 1, 0),
+				pathsCover(deferBoth, 30, 400, 0),
 				digraphCover("digraphs-req", "req", deferBoth, 120, 2500),
 				digraphCover("digraphs-opt", "opt", deferBoth, 50, 1200),
 				digraphCover("digraphs-grp", "grp", deferBoth, 60, 1500),
@@ -349,6 +359,7 @@ func init() {
 		run: genericRun(stagePlan{
 			covers: []coverPlan{
 				randCover("reject", tweak(small, func(f *fam.Features) { f.Types = 2; f.PNamed = 0.05; f.Ctors = 3; f.Decs = 1; f.PInvalid = 0.7 }), rec, 40, 400, 0),
+				pathsCover(rec, 30, 400, 0),
 				digraphCover("digraphs-req", "req", rec, 100, 1500),
 				digraphCover("digraphs-grp", "grp", rec, 50, 800),
 				structCover("shadow", fam.Shadow, rec, false, 60, 0, 2, 0),
@@ -366,6 +377,7 @@ func init() {
 			repo: true,
 			covers: []coverPlan{
 				randCover("fault", small, recBoth, 40, 400, 2),
+				pathsCover(recBoth, 30, 400, 1),
 				structCover("chain", fam.Chain, recBoth, true, 20, 500, 2, 2),
 				wideCover("chain", fam.Chain, recBoth, true, 200, 1),
 				structCover("groups", fam.Groups, recBoth, false, 3, 40, 2, 1),
@@ -387,6 +399,7 @@ func init() {
 				wideCover("shadow", fam.Shadow, rec, false, 80, 0),
 				structCover("groups", fam.Groups, rec, false, 12, 40, 2, 0),
 				randCover("scopes", tweak(small, func(f *fam.Features) { f.Scopes = 3; f.Types = 2; f.PExport = 0.4; f.Decs = 0 }), rec, 40, 400, 0),
+				pathsCover(rec, 30, 400, 0),
 			},
 			traces: stdTraces("scopes", tweak(medium, func(f *fam.Features) { f.Scopes = 4; f.PExport = 0.4 }), 0, stdOpts)})})
 
@@ -508,6 +521,7 @@ func init() {
 			repo: true,
 			covers: []coverPlan{
 				randCover("orders", small, deferBoth, 40, 400, 0),
+				pathsCover(deferBoth, 30, 400, 0),
 				randCover("orders-rejects", tweak(small, func(f *fam.Features) { f.PInvalid = 0.8; f.Types = 2; f.PNamed = 0.05 }), deferBoth, 30, 300, 0),
 				structCover("chain", fam.Chain, deferBoth, false, 50, 500, 2, 0),
 				structCover("groups", fam.Groups, deferBoth, false, 10, 40, 2, 0),
